@@ -34,7 +34,7 @@ CHECKS["C16"] = dict(
 )
 CHECKS["C11"] = dict(
     category="proof",
-    text="Coq model of db.go/ldb (ordered byte-key store, write transaction = op log + the code's own put/delete/seq summary, bucket path encoding, iterators, BytesPrefix) with 42 theorems over all op sequences and all byte strings: commit = whole log or nothing, read-your-writes for point/prefix reads, key encoding injective across buckets (isolation), prefix scans stay in their bucket, read-only iteration/seek exact and strictly ascending, BytesPrefix exact incl. 0xff prefixes; iterators of write transactions yield exactly the entries of the transaction's own view in the range, from the seek key on, strictly ascending, each once, for any pending batch (C11_write_iter_is_view; the merging iterator of /repo 160bde9, after 25fb027 for Seek below the range start; closed witnesses C11_write_iter_not_view_refuted and C11_seek_below_range_unfixed_refuted for the code as found); tied to the code by ~2000 random op sequences (148k ops) per quick run on a real LevelDB, replayed on the extracted model, plus a Go map as second oracle; failing sequences are shrunk.",
+    text="Coq model of db.go/ldb (ordered byte-key store, write transaction = op log + the code's own put/delete/seq summary, bucket path encoding, iterators, BytesPrefix) with 45 theorems over all op sequences and all byte strings: refinement to an abstract map specification (KV/Spec.v; for every operation sequence the model's outputs equal the specification's up to the first step it leaves unspecified — transactions, top-level buckets, put/delete/clear/get/prefix-get, iterators, close/reopen; nested buckets and listings not yet in the specification), commit = whole log or nothing, read-your-writes for point/prefix reads, key encoding injective across buckets (isolation), prefix scans stay in their bucket, read-only iteration/seek exact and strictly ascending, BytesPrefix exact incl. 0xff prefixes; iterators of write transactions yield exactly the entries of the transaction's own view in the range, from the seek key on, strictly ascending, each once, for any pending batch (C11_write_iter_is_view; the merging iterator of /repo 160bde9, after 25fb027 for Seek below the range start; closed witnesses C11_write_iter_not_view_refuted and C11_seek_below_range_unfixed_refuted for the code as found); tied to the code by ~2000 random op sequences (148k ops) per quick run on a real LevelDB, replayed on the extracted model, plus a Go map as second oracle; failing sequences are shrunk.",
     design_ref="DESIGN.md section 5, C11",
     note="Trusted: Coq kernel (no axioms), ExtrOcamlBasic + driver, Go harness + its reference map; goleveldb Get/Write/iterator snapshots and durability are environment (exercised by reopen steps). Bucket-listing theorem is partial (index well-formedness invariant not proved); iterators of write transactions are judged by the reference map against the transaction's view as long as the transaction writes nothing after creating them (the two-run listing of the code before 160bde9 would be reported under the key write-tx-iterator-not-view, which is no longer a known finding); Bucket() after DeleteBucket and NewBucket twice are modelled and diffed but outside the property text.",
     technique="Coq proof (invariant by induction over operation logs, encoding injectivity, iteration exactness) + extracted-model differential correspondence on a real LevelDB + reference-map oracle",
@@ -69,7 +69,7 @@ CHECKS["C19"] = dict(
 )
 CHECKS["C06"] = dict(
     category="proof",
-    text="Coq model of crash and restart over the C01 ledger and the C07/C08 task models: a crash right after any commit (any list of crash points) followed by Start (catch-up, reorganisation of a replaced tip, the fast-forward taken only over a stored tip that is still on the node's chain) and the rest of the history gives the ledger and reports of the run that never stopped; restart from ANY state of the import invariant on any chain the node moved to ends on the node's tip and further rescan batches make the wallet ready with the chain's ledger; the task queue rebuilt from the status records has exactly the members the crash lost, import and removal steps resume; refutation witnesses for the two repaired start-up defects (replaced tip at the same height, fast-forward over a stale fork while a wallet is being imported). Tied to the code by crash-point enumeration on the real wallet: the LevelDB handle is closed right after commit k (all volatile state lost), the node moves on or reorganises while the wallet is down, the wallet is reopened, possibly crashed again, and after catching up compared with the uncrashed twin, the extracted model and the chain specification — ordinary histories (create, addresses, blocks, reorganisations, import, removal) and the import-only family (only wallets being restored, chains longer than one rescan batch, node forked below or above the cursor and grown by a few or by more than 2000 blocks).",
+    text="Coq model of crash and restart over the C01 ledger and the C07/C08 task models: a crash right after any commit (any list of crash points) followed by Start (catch-up, reorganisation of a replaced tip, the fast-forward taken only over a stored tip that is still on the node's chain) and the rest of the history gives the ledger and reports of the run that never stopped; restart from ANY state of the import invariant on any chain the node moved to ends on the node's tip and further rescan batches make the wallet ready with the chain's ledger; the task queue rebuilt from the status records has exactly the members the crash lost, import and removal steps resume; any number of crash/restarts at any positions of a history with one or two concurrent restores beside ready wallets (node on any chain at each restart) end, once in step and ready, with the live run of all wallets; refutation witnesses for the two repaired start-up defects (replaced tip at the same height, fast-forward over a stale fork while a wallet is being imported). Tied to the code by crash-point enumeration on the real wallet: the LevelDB handle is closed right after commit k (all volatile state lost), the node moves on or reorganises while the wallet is down, the wallet is reopened, possibly crashed again, and after catching up compared with the uncrashed twin, the extracted model and the chain specification — ordinary histories (create, addresses, blocks, reorganisations, import, removal) and the import-only family (only wallets being restored, chains longer than one rescan batch, node forked below or above the cursor and grown by a few or by more than 2000 blocks).",
     design_ref="DESIGN.md section 5, C06",
     note="Trusted: Coq kernel (no axioms), ocaml/C01 driver + ExtrOcamlBasic, harness (dbwrap, cfsim, sim, hist; deterministic crypto/rand swap), LevelDB journal for a crash inside a batch write. Theorems exclude a node reorganised back to genesis; the fast-forward is covered by C06_ff_restart_any_chain / C06_ff_restart_resumes; import/removal steps resume by C06_import_resumes / C06_removal_resumes / C06_task_resumes, their ledger effect is C07's / C08's. Known finding addressbook-row-lost-by-rollback (address rows compared separately).",
     technique="Coq proof (crash = restart from the store, induction over histories using the C01 theorems) + crash-point enumeration on the real wallet with twin comparison",
